@@ -167,7 +167,7 @@ theorem frameRet_blocked (c : Cfg) (f : Fr) (k : List Fr) (retK : St → Val →
     all_goals first
       | exact hR _ _
       | exact setupStart_blocked _ _ _ _ _ hR
-  | resetK n => exact afterReset_blocked _ _ _ _ hR
+  | resetK n saved => exact afterReset_blocked _ _ _ _ hR
 
 theorem runExit_blocked (s : St) (e : Res) : Blocked (runExit s e) := by
   left
@@ -182,9 +182,10 @@ theorem handOver_stack (s : St) (r : Res) : (handOver s r).stack = [] := by
 theorem deliver_blocked (s : St) (v : Val) : Blocked (deliver s v) := by
   unfold deliver
   simp only []
-  split
-  · exact runExit_blocked _ _
-  · exact Or.inl (handOver_stack _ _)
+  repeat' split
+  all_goals first
+    | exact runExit_blocked _ _
+    | exact Or.inl (handOver_stack _ _)
 
 /-- whatever is returned into whatever stack, the loop ends at a blocking point -/
 theorem resume_blocked (c : Cfg) (k : List Fr) : ∀ s v, Blocked (resume c k s v) := by
